@@ -291,6 +291,7 @@ class TermDomain(Domain):
     # ---- calls -----------------------------------------------------------------------------------
     def call(self, it, name, args, store, term, frame):
         vals = [it.read_ref(store, a) for a in args]
+        self.cur_term = term
         if self.oracle is not None:
             r = self.oracle(self, it, name, args, vals, store)
             if r is not None:
